@@ -618,6 +618,19 @@ fn invalid_arguments(rt: &Rt, ev: &mut Evidence) {
         if matches!(c.outcome(), Outcome::Ok) {
             ev.violation(format!("invalid_arguments:{name}:completed_ok"), format!("{}: on_complete fired", req.describe()), rep.clone());
         }
+        // the reason given to the callback is the one the Rust API gives for the same request
+        // (built without the checking constructors: the fields are public): bad request - and not
+        // "shutdown", nothing was shut down
+        match c.outcome() {
+            Outcome::Err(code) if request_error_name(code) != "bad_request" => {
+                ev.violation(
+                    format!("invalid_arguments:{name}:callback_error={}", request_error_name(code)),
+                    format!("{}: refused (rc={rc}), and the completion callback was told {:?} where the Rust API reports BadRequest", req.describe(), request_error_name(code)),
+                    rep.clone(),
+                );
+            }
+            _ => {}
+        }
         check_callback(ev, &format!("client.invalid_arguments.{name}"), rc, &c, &rep);
     }
     // the same list object may be used for any number of writes
